@@ -110,10 +110,11 @@ type udpCase struct {
 	nextID   int
 	bad      bool // the writer saw an error since the last Flush / Discard
 	buffered int  // the writer's own count of accepted bytes since the last boundary
+	deaf     []bool
 }
 
 func newUDPCase(n int, multi bool, sinks []*udpSink) *udpCase {
-	c := &udpCase{n: n, multi: multi, sinks: sinks[:n], sizes: map[int]int{}}
+	c := &udpCase{n: n, multi: multi, sinks: sinks[:n], sizes: map[int]int{}, deaf: make([]bool, n)}
 	for _, s := range c.sinks {
 		s.drain(0)
 	}
@@ -153,6 +154,9 @@ func (c *udpCase) do(o udpOp, dead []bool) (rec M, ok bool) {
 		return nil, false
 	}
 	if o.op == "die" && (o.c > c.n || dead[o.c-1]) {
+		return nil, false
+	}
+	if o.op == "deafen" && (o.c > c.n || c.deaf[o.c-1] || dead[o.c-1]) {
 		return nil, false
 	}
 	if (o.op == "ws" || o.op == "wb") && c.multi {
@@ -219,6 +223,12 @@ func (c *udpCase) do(o udpOp, dead []bool) (rec M, ok bool) {
 			rec["c"] = o.c
 			c.childs[o.c-1].Conn().Close()
 			dead[o.c-1] = true
+		case "deafen":
+			// the collector goes away: nobody listens on the destination's port any more (sends are answered with
+			// "port unreachable": the next send on the connected socket fails with ECONNREFUSED, the one after goes out)
+			rec["c"] = o.c
+			c.sinks[o.c-1].close()
+			c.deaf[o.c-1] = true
 		case "abandon":
 			c.bad = false
 		}
@@ -234,7 +244,9 @@ func (c *udpCase) do(o udpOp, dead []bool) (rec M, ok bool) {
 		// a Flush that reported success has put one datagram on every destination's wire: wait for it; after any other
 		// call only what is already queued is taken
 		var dgrams [][]byte
-		if o.op == "flush" && wasOpen[i] && !dead[i] {
+		if c.deaf[i] {
+			dgrams = nil
+		} else if o.op == "flush" && wasOpen[i] && !dead[i] {
 			// this destination was open and its socket alive: a Flush that reaches it puts one datagram on its wire
 			dgrams = c.sinks[i].drainN(1, 300*time.Millisecond)
 		} else {
@@ -270,12 +282,13 @@ func init() {
 		var alpha []udpOp
 		if !*multi {
 			alpha = []udpOp{{op: "w", size: U}, {op: "w", size: 3 * U}, {op: "w", size: 5 * U}, {op: "ws", size: 3 * U}, {op: "w", size: 6 * U},
-				{op: "wb"}, {op: "flush"}, {op: "discard"}, {op: "close"}, {op: "die", c: 1}}
+				{op: "wb"}, {op: "flush"}, {op: "discard"}, {op: "close"}, {op: "die", c: 1}, {op: "deafen", c: 1}}
 		} else {
 			alpha = []udpOp{{op: "w", size: U}, {op: "w", size: 3 * U}, {op: "w", size: 5 * U}, {op: "flush"}, {op: "discard"}, {op: "close"}}
 			for c := 1; c <= *n; c++ {
 				alpha = append(alpha, udpOp{op: "die", c: c})
 			}
+			alpha = append(alpha, udpOp{op: "deafen", c: 1})
 		}
 		maxLen := 4
 		if thorough {
@@ -309,6 +322,9 @@ func init() {
 			c.finish()
 			// anything arriving late would be a datagram no call accounted for
 			for i := 0; i < *n; i++ {
+				if c.deaf[i] {
+					continue
+				}
 				if late := sinks[i].drain(0); len(late) > 0 {
 					fatal("datagram arrived after its call returned (sink %d): loopback sends are expected to be synchronous", i+1)
 				}
